@@ -119,9 +119,12 @@ spec fn stored_all(m: Map<String, BlockInfo>, s: Seq<BlockInfo>, n: int) -> Map<
 //@| ensures
 //@|     final(vp_store).canister_height == round_canister_height(),
 //@|     final(vp_store).block_info@ == stored_all(old(vp_store).block_info@, round_explorer_data(), round_explorer_data().len() as int),
+//@ loopbefore 1
+//@| let ghost vp_ch = vp_store.canister_height;
 //@ loop 1 binder=itf
 //@| invariant
-//@|     vp_store.canister_height == old(vp_store).canister_height,
+//@|     // the loop stores provider entries only; the canister height is whatever it was when the loop began (set before or after it)
+//@|     vp_store.canister_height == vp_ch,
 //@|     vp_store.block_info@ == stored_all(old(vp_store).block_info@, round_explorer_data(), itf.index@ as int),
 //@|     explorer_data@ == round_explorer_data(),
 //@ loopstart 1
